@@ -360,6 +360,9 @@ def eval_expect(e, out):
 
 def make_replay(chk, rep, scn=None):
     def replay(c):
+        if c.get('kind') == 'sched':
+            from specs import schedcheck
+            return schedcheck.replay_cand(chk, scn, c)
         if c.get('kind') == 'dbstate':
             line = c['witness']['line']
             payload, raw, rc = rep.run('state', 'dbstate_batch', [line])
